@@ -341,3 +341,22 @@ def heredoc_corpus():
     for first, rest in ctxs[:6]:
         out.append(first.replace("{H}", "<<A <<B") + "\n1\nA\n$(\n\tx\n)\nB\n" + rest)
     return out
+
+
+def arith_corpus():
+    """multi-line arithmetic whose parts are separated only by the line break: the second part starts in the column where
+    the first one ended (and variations), as a command and as an expansion, alone, in double quotes, in a here-document"""
+    out = []
+    for p1, p2 in (("1", "2"), ("$x", "y"), ("a", "+b"), ("x", "=1"), ("${v}", "1"), ("1", "$y")):
+        for prefix, opener, closer, tail in (("", "((", "))", ""), ("echo ", "$((", "))", ""), ('echo "', "$((", "))", '"'), ("x=", "$((", "))", ""),
+                                             ("! ", "((", "))", ""), ("if ", "((", "))", "; then a; fi"), ("echo a$((1)) ", "$((", "))", "")):
+            for shift in (0, 1, -1):
+                first = prefix + opener + p1
+                col = len(first) + shift
+                if col < 0:
+                    continue
+                out.append(first + "\n" + " " * col + p2 + closer + tail + "\n")
+                out.append(first + "\n" + " " * col + p2 + "\n" + closer + tail + "\n")
+            out.append(prefix + opener + "\n" + p1 + "\n " + p2 + "\n" + closer + tail + "\n")
+        out.append("cat <<E\n$((" + p1 + "\n   " + p2 + "))\nE\n")
+    return out
